@@ -16,6 +16,7 @@ from pb_bss.distribution.mixture_model_utils import (
 from pb_bss.permutation_alignment import _PermutationAlignment
 from pb_bss.distribution.utils import _ProbabilisticModel
 from pb_bss.distribution.mixture_model_utils import estimate_mixture_weight
+from pb_bss import _verif
 
 
 @dataclass
@@ -201,6 +202,11 @@ class CBMMTrainer:
                 saliency=saliency,
                 weight_constant_axis=weight_constant_axis,
             )
+            if _verif.ENABLED:
+                _verif.report(
+                    trainer=self, iteration=iteration, model=model,
+                    affiliation=affiliation, quadratic_form=None,
+                )
 
         return model
 
